@@ -52,11 +52,26 @@ CLAIMED = {
             "stable; from_notes is run on each stream and compared; random streams and decoded corpus/generated notes are "
             "encoded for real and the emitted text is decoded and shape-checked by TLC.",
             "streams sorted with unique positions (TLC checks the precondition); measure sizes capped for TLC."),
+    "C09": ("grouping", "6/C09",
+            "TLC runs the operational join machine (held columns, buffer, released items; one action per note) on every stream "
+            "of a small grid under all nine orphan policies and checks at every step / at the end that it refines the declarative "
+            "pairing rule; modes and counts are checked per stream; every terminal state is replayed through group_notes; all grid "
+            "streams x the option space, random ill-formed streams and corpus charts are grouped/counted for real and every call is "
+            "recomputed by TLC.",
+            "grid: 2 columns x 3-4 rows x 5 cell kinds; quick rotates through the option space per stream; single-player sorted streams."),
+    "C10": ("grouping", "6/C10",
+            "TLC checks per grid stream that the ungroup machine applied to the specified groups restores the included notes minus "
+            "dropped orphans for every type set, mode, join, 9 group policies and 3 ungroup policies, and that hand-built groups with a "
+            "note inside a hold raise/pass/drop it; real ungroup_notes outputs of grid, random, corpus and hand-built inputs are "
+            "validated by TLC from the original stream.",
+            "tails carry no keysound index; per-type grouping claims multiset + non-decreasing beats only."),
 }
 
 PENDING = {}
 
 ENGINES = [
+    ("grouping", "spec/grouping", ["C09", "C10"],
+     "Grouping.tla (declarative pairing, operational join machine, modes, counts, ungroup machine) + MC_Grouping (TLC BFS of the machine), MC_Ungroup + Trace_Grouping"),
     ("notedata", "spec/notedata", ["C07", "C08"],
      "NoteData.tla (decode / encode / position order) + MC_NoteData, MC_Encode (TLC BFS) + Trace_NoteData (TLC trace validation)"),
     ("codec", "spec/codec", ["C01", "C02", "C03", "C04"],
